@@ -116,6 +116,18 @@ func c04Case(t *T) {
 	}
 	progKey := fmt.Sprint(p.Describe())
 	progNT := p.MaxDepth >= 2 || p.UseAfter || p.Siblings
+	// a third of the routers have served a request whose handler panicked before (no OnPanic hook:
+	// the panic escapes ServeHTTP and is recovered by the caller, as net/http does per connection)
+	if len(p.Routes) > 0 && chance(r, 1, 3) {
+		rs := pick(r, p.Routes)
+		chain := append(append(append([]*MW{}, p.Globals...), rs.Chain...), rs.Main)
+		site := pick(r, chain)
+		req := NewReq(rs.Method, rs.RequestPath(r))
+		req.Header.Set("X-Panic", site.ID+":"+pick(r, []string{"pre", "post"}))
+		req.Header.Set("X-Panic-Val", "string")
+		_, _, _ = Serve(router, req)
+		t.Count("programs.after_escaped_panic", 1)
+	}
 
 	check := func(kind, method, path string, chain []*MW, wantStatus int) {
 		want := withoutFake(OnionEvents(chain))
